@@ -89,6 +89,9 @@ DLC = Inst('bumble.rfcomm:DLC')
 TX_GHOST = dict(dlci=Int, c_r=Int, mtu=Int, credits=Int, granted=Int, credit_frames=Int, data_frames=Int, wire=Bytes, frames=Int)
 
 
+QMAX = rfcomm.DEFAULT_RX_QUEUE_SIZE
+
+
 def wf_dlc(self):
     """representation invariant of the credit ledgers (established by DLC.__init__ for every negotiated frame size
     >= 23 over an L2CAP MTU >= 48 and every initial credit count)"""
@@ -98,7 +101,13 @@ def wf_dlc(self):
         0 <= self.rx_credits and self.rx_credits <= self.rx_max_credits,
         self.rx_max_credits <= 255,
         0 <= self.rx_credits_threshold and self.rx_credits_threshold < self.rx_max_credits,
+        # packets waiting for a sink are covered by withheld credits: the bounded receive queue cannot overflow
+        # as long as the peer respects its credits
+        self.rx_max_credits <= QMAX and implies(len(self._enqueued_rx_packets) > 0, len(self._enqueued_rx_packets) + self.rx_credits <= self.rx_max_credits),
     ]
+
+
+WF_NAMES = ['wf-mtu', 'wf-tx', 'wf-rx', 'wf-max', 'wf-thr', 'wf-rx-queue-covered-by-withheld-credits']
 
 
 def tx_mirror(self, ghost):
@@ -107,7 +116,9 @@ def tx_mirror(self, ghost):
 
 
 def needed(rx_credits, self):
-    return ite(rx_credits <= self.rx_credits_threshold, self.rx_max_credits - rx_credits, 0)
+    """credits to grant now: replenish up to rx_max_credits when the peer is at or below the threshold -- but none while
+    received packets still wait for a sink (flow control: the bounded receive queue must not overflow)"""
+    return ite(len(self._enqueued_rx_packets) == 0 and rx_credits <= self.rx_credits_threshold, self.rx_max_credits - rx_credits, 0)
 
 
 def sent_prefix(self, buf0, old, ghost):
@@ -125,6 +136,12 @@ def sent_prefix(self, buf0, old, ghost):
 SENT_NAMES = ['sent-count', 'sent-is-prefix-rest-waits', 'stream-exact', 'bytes-travel-in-data-frames']
 
 
+def replenished(self):
+    """after every process_tx the peer holds (or is being sent) more than the threshold -- unless credits are withheld because
+    received packets wait for a sink (released by the sink setter)"""
+    return implies(len(self._enqueued_rx_packets) == 0, self.rx_credits > self.rx_credits_threshold)
+
+
 def tx_post(self, old, ghost):
     n0 = needed(old.self.rx_credits, self)
     return [
@@ -135,7 +152,7 @@ def tx_post(self, old, ghost):
         # credits are replenished iff the peer is at or below the threshold, once, up to rx_max_credits
         ghost.granted == old.ghost.granted + n0,
         ghost.credit_frames == old.ghost.credit_frames + (1 if n0 > 0 else 0),
-        self.rx_credits == old.self.rx_credits + n0 and self.rx_credits > self.rx_credits_threshold,
+        self.rx_credits == old.self.rx_credits + n0 and replenished(self),
         # one credit per data frame, none for a credit-only frame
         old.self.tx_credits - self.tx_credits == ghost.data_frames - old.ghost.data_frames,
         ghost.frames - old.ghost.frames <= ghost.data_frames - old.ghost.data_frames + (1 if n0 > 0 else 0),
@@ -155,7 +172,7 @@ PROCESS_TX = dict(
     ghost=TX_GHOST,
     requires=lambda self, ghost: wf_dlc(self) + tx_mirror(self, ghost) + [implies(self.drained.is_set(), len(self.tx_buffer) == 0)],
     ensures=lambda self, old, ghost: wf_dlc(self) + tx_post(self, old, ghost),
-    ensures_names=['wf-mtu', 'wf-tx', 'wf-rx', 'wf-max', 'wf-thr'] + TX_NAMES,
+    ensures_names=WF_NAMES + TX_NAMES,
     modifies=TX_MOD,
 )
 
@@ -227,11 +244,11 @@ contract(
         len(self.tx_buffer) == 0 or self.tx_credits == 0,
         old.self.tx_credits - self.tx_credits == ghost.data_frames - old.ghost.data_frames,
         self.rx_credits - old.self.rx_credits == ghost.granted - old.ghost.granted and ghost.granted >= old.ghost.granted
-        and self.rx_credits > self.rx_credits_threshold,
+        and replenished(self),
         implies(self.drained.is_set(), len(self.tx_buffer) == 0),
         implies(len(self.tx_buffer) == 0 and len(old.self.tx_buffer) + len(data) > 0, self.drained.is_set()),
     ],
-    ensures_names=['wf-mtu', 'wf-tx', 'wf-rx', 'wf-max', 'wf-thr', 'credit-ledger'] + SENT_NAMES + ['no-stall', 'one-credit-per-data-frame',
+    ensures_names=WF_NAMES + [ 'credit-ledger'] + SENT_NAMES + ['no-stall', 'one-credit-per-data-frame',
                    'rx-ledger', 'drained-implies-empty', 'empty-implies-drained'],
     # neither bytes nor str: rejected, nothing queued, nothing sent
     raises={core.InvalidArgumentError: lambda self, data, old, ghost: [not isinstance(data, bytes)] + unchanged_tx(self, old, ghost)},
@@ -265,6 +282,9 @@ def rx_pre(self, frame, ghost):
         ghost.mtu == self.mtu,
         ghost.credits == self.tx_credits + (rx_credit(frame) if len(frame.information) > 0 else 0),
         implies(self.drained.is_set(), len(self.tx_buffer) == 0),
+        # the peer respects its credits: it holds one for every data frame it sends (rfcomm_stream: the receiver's ledger
+        # counts every data frame in flight)
+        implies(len(rx_data(frame)) > 0, self.rx_credits >= 1),
     ]
 
 
@@ -272,7 +292,7 @@ def rx_post(self, frame, old, ghost):
     data = rx_data(frame)
     got = len(data) > 0
     has_sink = self._sink is not None
-    r1 = old.self.rx_credits - (1 if got and old.self.rx_credits > 0 else 0)
+    r1 = old.self.rx_credits - (1 if got else 0)
     n1 = needed(r1, self)
     return wf_dlc(self) + [
         # credits taken from the first octet iff P/F == 1 (ghost.credits was credited with them on entry)
@@ -285,14 +305,14 @@ def rx_post(self, frame, old, ghost):
         implies(not (got and not has_sink), list(self._enqueued_rx_packets) == list(old.self._enqueued_rx_packets)),
         # one rx credit per data frame, then replenished when at or below the threshold
         self.rx_credits == r1 + n1,
-        ghost.granted == old.ghost.granted + n1 and n1 >= 0 and self.rx_credits > self.rx_credits_threshold,
+        ghost.granted == old.ghost.granted + n1 and n1 >= 0 and replenished(self),
         # then everything that can be sent is sent
         len(self.tx_buffer) == 0 or self.tx_credits == 0,
         implies(self.drained.is_set(), len(self.tx_buffer) == 0),
     ] + sent_prefix(self, old.self.tx_buffer, old, ghost)
 
 
-RX_NAMES = ['wf-mtu', 'wf-tx', 'wf-rx', 'wf-max', 'wf-thr', 'credit-ledger', 'credits-from-first-octet', 'delivered-bytes', 'delivered-once',
+RX_NAMES = WF_NAMES + [ 'credit-ledger', 'credits-from-first-octet', 'delivered-bytes', 'delivered-once',
             'queued-in-order-nothing-lost', 'queue-untouched', 'rx-ledger', 'credits-granted', 'no-stall', 'drained-implies-empty'] + SENT_NAMES
 RX_MOD = TX_MOD + ['self._enqueued_rx_packets', 'ghost.delivered', 'ghost.deliveries', 'ghost.packets']
 
@@ -308,7 +328,6 @@ ON_UIH = dict(
                list(self._enqueued_rx_packets) == list(old.self._enqueued_rx_packets)]},
     modifies=RX_MOD,
 )
-QMAX = rfcomm.DEFAULT_RX_QUEUE_SIZE
 # case split on the receive queue (type invariant of deque(maxlen=QMAX): len <= QMAX): not full (symbolic spine) / full
 # (concrete spine of QMAX packets: z3 finds no model of a 32-element sequence of sequences, so the full case is spelled out)
 contract('bumble.rfcomm:DLC.on_uih_frame', prop='C20', uses=USE_TX,
@@ -316,7 +335,8 @@ contract('bumble.rfcomm:DLC.on_uih_frame', prop='C20', uses=USE_TX,
 from pyvc.contracts import ConcList  # noqa: E402
 
 contract('bumble.rfcomm:DLC.on_uih_frame', key='bumble.rfcomm:DLC.on_uih_frame@queue-full', prop='C20', uses=USE_TX,
-         **dict(ON_UIH, params=dict(self=Inst('bumble.rfcomm:DLC', _enqueued_rx_packets=ConcList(Bytes, QMAX, 'deque', QMAX)), frame=RX_FRAME)))
+         **dict(ON_UIH, params=dict(self=Inst('bumble.rfcomm:DLC', _enqueued_rx_packets=ConcList(Bytes, QMAX, 'deque', QMAX)), frame=RX_FRAME),
+                ))
 
 
 # ---------------------------------------------------------------------------
@@ -326,19 +346,25 @@ contract(
     'bumble.rfcomm:DLC.sink',
     prop='C20',
     params=dict(self=Inst('bumble.rfcomm:DLC', _sink=Any), sink=Opt(Callback('sink', effect=sink_recv))),
-    ghost=dict(delivered=Bytes, deliveries=Int, packets=ListOf(Bytes)),
-    ensures=lambda self, sink, old, ghost: [
+    ghost=RX_GHOST,
+    requires=PROCESS_TX['requires'],
+    ensures=lambda self, sink, old, ghost: wf_dlc(self) + [
         implies(sink is not None, ghost.packets == old.ghost.packets + list(old.self._enqueued_rx_packets) and len(self._enqueued_rx_packets) == 0),
         implies(sink is None, ghost.packets == old.ghost.packets and list(self._enqueued_rx_packets) == list(old.self._enqueued_rx_packets)),
+        # the credits withheld while packets were queued are released: the peer is not left without credits
+        implies(sink is not None and len(old.self._enqueued_rx_packets) > 0, self.rx_credits > self.rx_credits_threshold),
+        ghost.credits == self.tx_credits and len(self.tx_buffer) <= len(old.self.tx_buffer),
     ],
-    ensures_names=['queued-packets-delivered-in-order-once', 'detaching-keeps-the-queue'],
+    ensures_names=WF_NAMES + ['queued-packets-delivered-in-order-once', 'detaching-keeps-the-queue', 'withheld-credits-released', 'credit-ledger'],
     invariants={0: lambda self, _i, old, ghost: [
         _i >= 0,
         list(self._enqueued_rx_packets) == list(old.self._enqueued_rx_packets),
         ghost.packets == old.ghost.packets + list(old.self._enqueued_rx_packets)[:_i],
-    ]},
+        ghost.credits == old.ghost.credits and ghost.granted == old.ghost.granted,
+    ] + unchanged_tx(self, old, ghost)},
     decreases={0: lambda self, _i: len(self._enqueued_rx_packets) - _i},
-    modifies=['self._sink', 'self._enqueued_rx_packets', 'ghost.delivered', 'ghost.deliveries', 'ghost.packets'],
+    modifies=['self._sink', 'self._enqueued_rx_packets', 'ghost.delivered', 'ghost.deliveries', 'ghost.packets'] + TX_MOD,
+    uses=USE_TX,
     note='the property setter (second definition of DLC.sink)',
 )
 
@@ -406,7 +432,7 @@ lemma(
         PROCESS_TX['requires'](dlc, ghost) + both_dirs(dlc, ghost, taken, datarcvd, written, p_tx_credits, p_rx_credits, p_tx_buffer, p_wire, p_data_frames, p_taken, p_written, p_delivered, p_granted, p_datarcvd),
     ensures=lambda dlc, chunk, ghost, taken, datarcvd, written, p_tx_credits, p_rx_credits, p_tx_buffer, p_wire, p_data_frames, p_taken, p_written, p_delivered, p_granted, p_datarcvd:
         PROCESS_TX['requires'](dlc, ghost) + both_dirs(dlc, ghost, taken, datarcvd, written + chunk, p_tx_credits, p_rx_credits, p_tx_buffer, p_wire, p_data_frames, p_taken, p_written, p_delivered, p_granted, p_datarcvd),
-    ensures_names=['wf-mtu', 'wf-tx', 'wf-rx', 'wf-max', 'wf-thr', 'mirror-dlci', 'mirror-c_r', 'mirror-mtu', 'mirror-credits', 'drained-implies-empty'] + NAMES_BOTH,
+    ensures_names=WF_NAMES + [ 'mirror-dlci', 'mirror-c_r', 'mirror-mtu', 'mirror-credits', 'drained-implies-empty'] + NAMES_BOTH,
     uses=['bumble.rfcomm:DLC.write'],
 )
 
@@ -447,6 +473,6 @@ lemma(
     ensures=lambda dlc, frame, ghost, taken, datarcvd, written, p_tx_credits, p_rx_credits, p_tx_buffer, p_wire, p_data_frames, p_taken, p_written, p_delivered, p_granted, p_datarcvd:
         PROCESS_TX['requires'](dlc, ghost)
         + both_dirs(dlc, ghost, taken + rx_credit(frame), datarcvd + (1 if len(rx_data(frame)) > 0 else 0), written, p_tx_credits, p_rx_credits, p_tx_buffer, p_wire, p_data_frames, p_taken, p_written, p_delivered, p_granted, p_datarcvd),
-    ensures_names=['wf-mtu', 'wf-tx', 'wf-rx', 'wf-max', 'wf-thr', 'mirror-dlci', 'mirror-c_r', 'mirror-mtu', 'mirror-credits', 'drained-implies-empty'] + NAMES_BOTH,
+    ensures_names=WF_NAMES + [ 'mirror-dlci', 'mirror-c_r', 'mirror-mtu', 'mirror-credits', 'drained-implies-empty'] + NAMES_BOTH,
     uses=['bumble.rfcomm:DLC.on_uih_frame'],
 )
